@@ -525,7 +525,14 @@ func (g *Gen) genCreateBatch() *eng.Tx {
 		// signed by the PROJECT admin (who may or may not be a class issuer — the role that counts), with
 		// an origin transaction as a bridge service would send it
 		m.Issuer = obs.Addr(p.Admin)
-		if m.OriginTx == nil {
+		// preferably a project whose admin is NOT an issuer of its class (the case that must be refused)
+		for _, x := range g.V.ProjectList {
+			if cx := g.V.Classes[x.ClassKey]; cx != nil && !g.V.Issuers[cx.Key][obs.Addr(x.Admin)] && g.chance(0.5) {
+				m.ProjectId, m.Issuer, c = x.Id, obs.Addr(x.Admin), cx
+				break
+			}
+		}
+		if m.OriginTx == nil || g.chance(0.5) {
 			m.OriginTx = g.originTx(c.Id, false)
 		}
 	}
